@@ -55,8 +55,9 @@ structure Outcome where
   out : List String
   hyps : List String
 
-def keyUnsafe (items : List Str) : List String :=
-  (if items.all (fun c => decide (safe c)) then [] else ["unsafe_item"])
+/-- no hypothesis is excluded any more: since the repair of C16-F10 the property is demanded for
+    EVERY key (a request with an unsafe key must be refused without touching anything) -/
+def keyUnsafe (_items : List Str) : List String := []
 
 def runStep (nowYear : Nat) (o : Outcome) (st : String) : Option Outcome :=
   match st.splitOn ":" with
